@@ -83,6 +83,15 @@ Proof.
 Qed.
 Print Assumptions C05_constructor_is_translated_code.
 
+(* ... and so are the unary operators: abs() and negation build their result
+   through the constructor, + returns the operand itself *)
+Theorem C05_unary_operators_are_translated_code : forall dm is_dec p,
+  qty_abs_impl dm is_dec p = Ok (qty_abs dm p) /\
+  qty_neg_impl dm is_dec p = Ok (qty_neg dm p) /\
+  qty_pos_impl dm is_dec p = Ok p.
+Proof. exact qty_unary_impl_eq. Qed.
+Print Assumptions C05_unary_operators_are_translated_code.
+
 Definition ex_kB := mkUnit 1 11 true (Some (1000 # 1)) (Some (1 # 8000)).
 Example C05_one_seventh_kB :
   map (fun m => Qred (q_amt (mk_qty m (1 # 7) ex_kB))) [MHEVEN; MCEIL; MFLOOR]
